@@ -77,6 +77,12 @@ EveryEntryHasProducer(log, procs) ==
 IkOnce(log) ==
     \A i, j \in 1..Len(log) : (i # j /\ log[i].ik # "") => log[i].ik # log[j].ik
 
+\* keys as the requests carried them: two entries produced by requests sharing a key are two effects
+IkOncePerRequestKey(log, reqIk) ==
+    \A i, j \in 1..Len(log) :
+        (i # j /\ log[i].by \in DOMAIN reqIk /\ log[j].by \in DOMAIN reqIk /\ reqIk[log[i].by] # "")
+            => reqIk[log[i].by] # reqIk[log[j].by]
+
 IkSameOutcome(resp) ==
     \A p, q \in DOMAIN resp :
         (resp[p].st = "ok" /\ resp[q].st = "ok" /\ resp[p].ik # "" /\ resp[p].ik = resp[q].ik
